@@ -6,11 +6,15 @@
    information only when allowed, nothing after DISCONNECT); (2) for EVERY schedule of concurrent
    writers the wire carries whole packets only, none lost or duplicated (model of WritePacket's
    critical section).  The verdict on the code is the monitor applied to every byte the broker
-   wrote in the generated histories.  Not proved here (partial): that mochi's encoder only produces
-   bytes the reference decoder accepts for every packet the broker can build — see C26/C42 for the
-   encoder/decoder theorems. *)
+   wrote in the generated histories; (3) the encoder side: whatever well-formed packet the broker
+   hands to mochi's encoder, if its abstraction is a packet the standard allows for that version,
+   the bytes written are accepted by the reference decoder as exactly that packet, and nothing
+   beyond them is consumed (C23_encoder_output, from the codec worker's bridge Codec/CodecC23.v).
+   Not proved (partial): that every packet the BROKER builds has a valid abstraction — that is what
+   the monitor checks on every run, and where the known findings live. *)
 From MV Require Import Base.Val Codec.SpecCodec Session.Wellformed Session.WellformedProofs
   Conc.WriteMux Conc.WriteMuxProofs.
+From MV Require Codec.Wire Codec.MochiCodec Codec.CodecNorm Codec.CodecC23.
 From Coq Require Import Permutation.
 Open Scope N_scope.
 
@@ -24,6 +28,13 @@ Theorem C23_no_interleaving : forall (progs : list (list (kind * bytes))) (sched
     (forall p, In p ps -> In p (all_packets progs)) /\
     (finished s -> Permutation (ps ++ qs) (all_packets progs)).
 Proof. exact no_interleaving. Qed.
+
+Theorem C23_encoder_output : forall pk rest,
+  CodecNorm.wf_packet pk = true ->
+  valid_packet (MochiCodec.pk_version pk) (CodecNorm.abs pk) = true ->
+  exists bs, MochiCodec.mochi_encode pk = Wire.Ok bs /\
+             spec_decode_packet (MochiCodec.pk_version pk) (bs ++ rest) = Some (CodecNorm.abs pk, rest).
+Proof. exact CodecC23.C23_encoder_output_total. Qed.
 
 (* The full property is FALSE of the current broker; three witnesses (bytes the real broker writes,
    replayed by the `wire` engine) that the monitor rejects and classifies as the listed findings. *)
@@ -57,3 +68,4 @@ Print Assumptions C23_no_interleaving.
 Print Assumptions C23_refuted_v3_disconnect.
 Print Assumptions C23_refuted_v3_connack_code.
 Print Assumptions C23_refuted_suback_0x82.
+Print Assumptions C23_encoder_output.
